@@ -463,6 +463,16 @@ def check(model: Model, run: Run) -> None:
 
     _c07._r5_codec(model, run, Folder(model))
 
+    # ------------------------------------------------------------------ R13 every next-hop length of a family is accepted
+    run.rule(
+        'C03.R13',
+        'a valid MP_REACH_NLRI is not refused: for every family of Family.size and every next-hop length the table lists for '
+        'it, the next-hop length stage of MPRNLRI.unpack_attribute is evaluated with and without a negotiated extended '
+        'next hop (RFC 8950) and must not end in a raise',
+        floor=40,
+    )
+    _r13_nexthop_lengths(model, run, Folder(model))
+
     run.rule(
         'C03.R4',
         'last-resort barriers: Message.unpack in read_message sits in a try whose handler covers Exception and '
@@ -1329,3 +1339,46 @@ def _registry_covers(model: Model, f: FuncInfo, sub: ast.Subscript) -> str | Non
     if wanted and wanted <= registered:
         return 'registry covers every wire message type %s' % sorted(wanted)
     return None
+
+
+def _r13_nexthop_lengths(model: Model, run: Run, folder: Folder) -> None:
+    from ..evalfn import Raised, Undecided, eval_function
+
+    fi = model.func('exabgp.bgp.message.update.attribute.mprnlri.MPRNLRI.unpack_attribute')
+    run.analysed(fi)
+    fam = model.cls('exabgp.protocol.family.Family')
+    table = folder.class_attr(fam.qualname, 'size')
+    if not isinstance(table, dict) or len(table) < 20:
+        run.cannot('Family.size could not be folded into a table')
+        return
+    # the stage starts where the sizes of the family are looked up and ends with the membership test of the length
+    start = None
+    for i, st in enumerate(fi.node.body):
+        if isinstance(st, ast.Assign) and isinstance(st.targets[0], ast.Tuple) and 'Family.size[' in norm(st.value):
+            start = i
+            break
+    if start is None:
+        run.cannot('the lookup of Family.size[(afi, safi)] was not found in MPRNLRI.unpack_attribute')
+        return
+    tg = fi.node.body[start].targets[0]
+    lname = tg.elts[0].id if isinstance(tg.elts[0], ast.Name) else '?'
+    key = fi.node.body[start].value.slice
+    names = [e.id for e in key.elts] if isinstance(key, ast.Tuple) and all(isinstance(e, ast.Name) for e in key.elts) else []
+    member = None
+    for j, st in enumerate(fi.node.body[start:], start):
+        if isinstance(st, ast.If) and isinstance(st.test, ast.Compare) and isinstance(st.test.ops[0], ast.NotIn) and norm(st.test.comparators[0]) == lname and isinstance(st.test.left, ast.Name):
+            member = j
+            nh = st.test.left.id
+    if member is None or len(names) != 2:
+        run.cannot('the test `<next-hop length> not in <sizes of the family>` was not found after the lookup')
+        return
+    stage = fi.node.body[start : member + 1]
+    neg = fi.node.args.args[-1].arg
+    for (afi, safi), (sizes, _rd) in sorted(table.items()):
+        for size in sizes:
+            for label, ext in (('no extended next hop', []), ('extended next hop negotiated', [(1, 1, 2)])):
+                r = eval_function(folder, fi, {names[0]: afi, names[1]: safi, nh: size, neg: {'nexthop': ext}}, body=stage, outcomes=True)
+                if isinstance(r, Undecided):
+                    run.cannot('%s: family %s/%s length %s (%s): statement at line %s not evaluated' % (short(fi.qualname), afi, safi, size, label, getattr(r.at, 'lineno', '?')))
+                    continue
+                run.check(not isinstance(r, Raised), fi.qualname, 'afi %s safi %s next-hop length %s, %s: %s' % (afi, safi, size, label, 'refused' if isinstance(r, Raised) else 'accepted'), fi.loc(r.stmt) if isinstance(r, Raised) else fi.loc(stage[0]), 'Family.size lists this next-hop length for the family (flowspec carries none, RFC 8955), so an UPDATE using it is valid; it is refused %s' % ('only because some other family negotiated an RFC 8950 next hop on the session' if ext else ''))
